@@ -749,3 +749,35 @@ Definition c01_session (toks : list (list N)) : list (list N) :=
     end
   | _ => REJECT_TOK
   end.
+
+(* ---------------- C12 ---------------- *)
+From TT Require Import Model.ClientRandom Generated.TlsFacts.
+
+Definition c12_code (e : extraction) : list (list N) :=
+  match e with
+  | XFound r => [[0]; r]
+  | XNeedMore => [[1]; []]
+  | XNotFound => [[2]; []]
+  | XOther => [[9]; []]
+  end.
+
+Definition c12_extract (toks : list (list N)) : list (list N) :=
+  match toks with
+  | data :: _ => c12_code (extract_c data)
+  | _ => REJECT_TOK
+  end.
+
+(* in: [gap] stream sizes.  out: [found] random [replayed = stream; length] ([9] = outside the modelled record shapes) *)
+Definition c12_peek (toks : list (list N)) : list (list N) :=
+  match toks with
+  | _ :: stream :: sizes :: _ =>
+    let arrivals := c08_split stream sizes in
+    let '(cr, pre, rest) := peek extract_c PEEK_MAX_PREBUFFER_LEN PEEK_READ_CHUNK_LEN PEEK_PARSES_BEFORE_LIMIT_CHECK
+                                 (S (length stream + length arrivals)) [] arrivals in
+    let replayed := replay_all (S (length stream + length arrivals)) [] pre 0 rest in
+    let other := match extract_c pre with XOther => true | _ => false end in
+    if other then [[9]]
+    else [[match cr with Some _ => 1 | None => 0 end]; match cr with Some r => r | None => [] end;
+          [if list_eqb N.eqb replayed stream then 1 else 0; lenN replayed]]
+  | _ => REJECT_TOK
+  end.
